@@ -13,7 +13,7 @@ class Spec(PropSpec):
     pid = "C20"
     subsys = "Barriers"
     props_file = "C20.v"
-    theorems = ["reported_once_in_order", "suspend_until_release", "noop_never_blocks", "panic_panics",
+    theorems = ["reported_once_in_order", "suspend_until_release", "source_gone_still_reported", "noop_never_blocks", "panic_panics",
                 "no_match_immediate", "c20_nonvacuous"]
     consts = []
     anchors = ANCHORS
@@ -27,7 +27,7 @@ class Spec(PropSpec):
     assumptions = [
         "that a suspended tokio task really does not run (and resumes when its oneshot fires) is runtime behaviour: it is not modelled, it is covered only by the correspondence check through per-source progress counters (trigger calls started / returned)",
         "the unbounded mpsc channel is modelled as a FIFO list, the oneshot release channel as a token naming the source",
-        "a source that is blocked or has panicked makes no trigger call (such script commands are skipped on both sides)",
+        "a source that is blocked, has panicked or was dropped makes no trigger call (such script commands are skipped on both sides); a dropped source is not restarted",
     ]
     partial_note = ("the logic of barriers.rs (registry, earliest match, FIFO reporting, release tokens) is proved for all "
                     "histories; that a suspended task does not execute is tokio behaviour, checked by correspondence only")
@@ -38,6 +38,8 @@ class Spec(PropSpec):
             n *= 2
         cases = [F.gen_script(ctx.rng, "local") for _ in range(n)]
         cases += [F.gen_script(ctx.rng, "sim") for _ in range(n // 5)]
+        nv = 60 if ctx.tier == "quick" else 600
+        cases += [F.gen_vanish(ctx.rng, "local") for _ in range(nv)] + [F.gen_vanish(ctx.rng, "sim") for _ in range(nv // 3)]
         nb = 12 if ctx.tier == "quick" else 80
         cases += [F.gen_burst(ctx.rng, "local") for _ in range(nb)] + [F.gen_burst(ctx.rng, "sim") for _ in range(nb // 2)]
         ex = F.exhaustive_small()
